@@ -55,10 +55,10 @@ class TimeMem(Model):
     def __init__(self, name, lane_key='sim', reads=None, writes=None):
         self.name, self.lane_key, self.reads, self.writes = name, lane_key, reads, writes
 
-    @staticmethod
-    def new(ex, st, name, **kw):
+    @classmethod
+    def new(cls, ex, st, name, **kw):
         st.heap[name] = z3.Array(f'{name}!{next(ex.fresh)}', z3.IntSort(), z3.RealSort())
-        return TimeMem(name, **kw)
+        return cls(name, **kw)
 
     def _idx(self, ex, st, idx, node):
         if not (isinstance(idx, tuple) and len(idx) == 2):
